@@ -232,6 +232,21 @@ class Elf:
         d.update(kw)
         self.segments.append(d)
 
+    def permute(self, rng):
+        """shuffle the section header order, keeping sh_link / segment references pointing at the same sections"""
+        n = len(self.sections)
+        order = list(range(n))
+        rng.shuffle(order)
+        newpos = {old + 1: new + 1 for new, old in enumerate(order)}
+        self.sections = [self.sections[o] for o in order]
+        for s in self.sections:
+            if s["link"] in newpos:
+                s["link"] = newpos[s["link"]]
+        for p in self.segments:
+            if p["sec"] in newpos:
+                p["sec"] = newpos[p["sec"]]
+        return newpos
+
     def build(self, rng=None, pad=0):
         cl, little = self.cl, self.little
         ehsize = 52 if cl == 32 else 64
